@@ -1692,7 +1692,12 @@ func (p *parser) hoistSymbols(scope *js_ast.Scope) {
 					// Is this unbound (i.e. a global access) or also hoisted?
 					if existingSymbol.Kind == ast.SymbolUnbound || existingSymbol.Kind == ast.SymbolHoisted ||
 						(existingSymbol.Kind.IsFunction() && (s.Kind == js_ast.ScopeEntry || s.Kind == js_ast.ScopeFunctionBody)) {
-						// Silently merge this symbol into the existing symbol
+						// Silently merge this symbol into the existing symbol. If the
+						// declaration was hoisted past a "with" statement, the existing
+						// symbol is now the one that must not be renamed.
+						if symbol.Flags.Has(ast.MustNotBeRenamed) {
+							existingSymbol.Flags |= ast.MustNotBeRenamed
+						}
 						symbol.Link = existingMember.Ref
 						s.Members[symbol.OriginalName] = existingMember
 						continue nextMember
